@@ -1116,6 +1116,10 @@ func (broker *Broker) startTrack(wg *sync.WaitGroup) {
 				// If the Q is still not empty, don't block when looking for a
 				// new payload to receive
 				wait = time.After(time.Second)
+			} else if in == nil {
+				// The last files were just handed off and no more payloads
+				// are coming: blocking on a nil channel here would never end
+				return
 			}
 		}
 		payload = nil
